@@ -514,6 +514,12 @@ def replay_kani(h, descs, prop):
     tname = re.search(r'fn (kani_concrete_playback_\w+)', test)
     if not tname:
         return info
+    stub_targets = re.findall(r'#\[kani::stub\(\s*([^,\s]+)', h.text or '')
+    if any(not re.match(r'(f64|f32|std|core|alloc)::', t) for t in stub_targets):
+        # a stubbed callee exists only inside the verifier: running the harness natively would call the
+        # real callee (for C20: on a fabricated FilterPattern) -- not meaningful, so not attempted
+        info['note'] = 'native replay not attempted: the harness replaces a callee of the crate with kani::stub (%s)' % ', '.join(stub_targets)
+        return info
     target = os.path.join(WOVEN, h.target)
     src = open(target).read()
     marker = 'mod %s {' % h.mod
